@@ -42,14 +42,17 @@ THEOREMS = ["dec_enc", "dec_proper_prefix_fails", "read_prefix_safe_abstract", "
 BUDGET = {"quick": 100, "thorough": 600}
 RULE = ("trace files written by the real `create_main_run_output` from real `run_phyclone_chain` results (2-5 data points, "
         "1-2 samples, grid 3-6, 1-3 chains, 1-4 kept iterations, burn-in 0-2, 2-4 particles, three proposal kernels, outliers "
-        "on/off, subtree moves on/off, thinning 1-2; thorough: more and larger files and a cluster-file variant); for each "
-        "file EVERY prefix length 0..len is written to disk and read by six reader invocations (MAP joint / frequency, "
-        "topology report with and without archive, consensus weighted / counts); one evaluation = one (file, prefix length) "
-        "pair with all six readers, non-trivial when the prefix reaches past the gzip header; distinct by (file digest, "
-        "prefix length).  Crash cases: the writer is re-run on the same results with a file object that fails after N bytes "
-        "(disk full) and in a forked child under RLIMIT_FSIZE = N (kill), N sampled over the whole file plus the last 12 "
-        "bytes; one `phyclone.run.run` end-to-end case checks that the output file is opened once, after the last chain, "
-        "and written append-only.")
+        "on/off, subtree moves on/off, thinning 1-2, one cluster-file variant; plus one long run, 3 chains x ~140 iterations, whose "
+        "pickle spans two 64 KiB frames so that readers consume the stream piecewise; thorough: 100 files, up to 7 data points / 12 "
+        "iterations, every fourth with a cluster file, six long runs of up to 300 iterations / three frames); for each file EVERY "
+        "prefix length 0..len is written to disk and read by six reader invocations (MAP joint / frequency, topology report with "
+        "and without archive, consensus weighted / counts; the long file of the quick tier by the three commands in their default "
+        "mode); one evaluation = one (file, prefix length) pair with all its readers, non-trivial when the prefix reaches past the "
+        "gzip header; distinct by (file digest, prefix length); consecutive prefix lengths are compared for monotonicity.  Crash "
+        "cases: the writer is re-run on the same results with a file object that fails after N bytes (disk full) and in a forked "
+        "child under RLIMIT_FSIZE = N with SIGXFSZ ignored (EFBIG) or default (killed), N sampled over the whole file plus its last "
+        "10 bytes, and what is left is read back; `phyclone.run.run` end-to-end cases (1-3 chains, in-process pool) check that the "
+        "output file is opened once, after the last chain, written append-only, and holds every chain.")
 TRUSTED = [
     "zlib / gzip and pickle are outside the model: their lawfulness (a pickle cut before its STOP opcode does not load; the gzip "
     "reader hands out only a prefix of the compressed payload) is the hypothesis set `Lawful` of `read_prefix_safe_abstract`, "
@@ -144,8 +147,8 @@ def large_gen(rnd, tier, i):
 
 def cases(tier, rnd):
     out = []
-    n_files = 8 if tier == "quick" else 40
-    n_large = 1 if tier == "quick" else 3
+    n_files = 8 if tier == "quick" else 100
+    n_large = 1 if tier == "quick" else 6
     made, attempts = 0, 0
     null = open(os.devnull, "w")
     old = sys.stdout
